@@ -9,6 +9,7 @@ from concurrent.futures import ProcessPoolExecutor
 
 SRC = '/repo/src/pydrobert/speech'
 PROPS = ['C%02d' % i for i in range(1, 21)]
+VALIDATE = '--validate' in sys.argv
 
 def locals_of(fn):
     params = {a.arg for a in fn.args.posonlyargs + fn.args.args + fn.args.kwonlyargs}
@@ -41,7 +42,7 @@ class One(ast.NodeTransformer):
         return node
 
 def job(args):
-    fn_file, lineno, name = args
+    fn_file, lineno, name, qual = args
     d = tempfile.mkdtemp(prefix='rs-', dir='/dev/shm')
     try:
         dst = os.path.join(d, 'src/pydrobert/speech'); shutil.copytree(SRC, dst)
@@ -59,22 +60,26 @@ def job(args):
                 mod.run(ctx)
             except Exception as e:
                 ctx.error('analysis', repr(e))
+            if VALIDATE:
+                ctx.apply_anchor_table()
             if ctx.findings or ctx.errors:
                 res[p] = {'findings': sorted({f.rule for f in ctx.findings}), 'errors': len(ctx.errors)}
-        return (fn_file, target.name, lineno, name, res)
+        return (fn_file, qual, lineno, name, res)
     finally:
         shutil.rmtree(d, ignore_errors=True)
 
 if __name__ == '__main__':
     out = sys.argv[1]
-    mods = sys.argv[2:] or [f for f in sorted(os.listdir(SRC)) if f.endswith('.py') and f not in ('vis.py', '_version.py', 'corpus.py')]
+    mods = [a for a in sys.argv[2:] if not a.startswith('--')] or [f for f in sorted(os.listdir(SRC)) if f.endswith('.py') and f not in ('vis.py', '_version.py', 'corpus.py')]
     jobs = []
+    prog0 = Program('/repo')
+    qn = {(os.path.basename(fi.module.rel), fi.node.lineno): fi.qualname for fi in prog0.functions.values()}
     for f in mods:
         tree = ast.parse(open(os.path.join(SRC, f)).read())
         for n in ast.walk(tree):
             if isinstance(n, ast.FunctionDef):
                 for nm in locals_of(n):
-                    jobs.append((f, n.lineno, nm))
+                    jobs.append((f, n.lineno, nm, qn.get((f, n.lineno), n.name)))
     print(len(jobs), 'single-variable renames')
     results = []
     with ProcessPoolExecutor(8) as ex:
@@ -84,3 +89,19 @@ if __name__ == '__main__':
     fa = [r for r in results if any(v['findings'] for v in r[4].values())]
     er = [r for r in results if any(v['errors'] for v in r[4].values()) and r not in fa]
     print('renames with false violations:', len(fa), ' with analysis errors only:', len(er), ' clean:', len(results) - len(fa) - len(er))
+    if '--write-anchors' in sys.argv:
+        table = {}
+        old = {}
+        ap = '/verif/pdsa/anchors.json'
+        if os.path.exists(ap):
+            old = json.load(open(ap))
+        for k, v in old.items():
+            table[k] = [tuple(x) for x in v]
+        for fn_file, q, lineno, name, res in results:
+            for p, r in res.items():
+                for rule in r['findings']:
+                    table.setdefault(rule, [])
+                    if (q, name) not in table[rule]:
+                        table[rule].append((q, name))
+        json.dump({k: sorted(v) for k, v in sorted(table.items())}, open(ap, 'w'), indent=1)
+        print('anchors.json:', sum(len(v) for v in table.values()), 'anchor names for', len(table), 'rules')
